@@ -145,15 +145,16 @@ def run(ctx):
     # ---- (3) accept_any / accept_nonempty grids
     for it in range(ctx.scale(200, 4000)):
         f = rng.choice(flagsets)
-        mode = rng.choice(['accept_any', 'accept_nonempty'])
+        mode = rng.choice(['accept_any', 'accept_nonempty', 'both'])
+        modekw = {'accept_any': True, 'accept_nonempty': True} if mode == 'both' else {mode: True}
         ml, mw = rng.choice([0, 0, 1, 3, 5]), rng.choice([0, 0, 1, 2, 3])
         em = rng.choice(['err', 'msg', None])
         pat = rng.choice([None, None, r'[a-z ]+', r'a|B c', r'\S+( \S+)*'])
         ev = rng.choice(['err', 'msg', None])
         dbg = rng.random() < 0.15
-        g = StringGrader(min_length=ml, min_words=mw, explain_minimums=em, validation_pattern=pat, explain_validation=ev, debug=dbg, **{mode: True}, **f)
+        g = StringGrader(min_length=ml, min_words=mw, explain_minimums=em, validation_pattern=pat, explain_validation=ev, debug=dbg, **modekw, **f)
         canon = {'expect': '', 'grade_decimal': 1, 'msg': '', 'ok': True}
-        eff_ml = 1 if (mode == 'accept_nonempty' and ml == 0) else ml
+        eff_ml = 1 if (mode in ('accept_nonempty', 'both') and ml == 0) else ml
         for stu in [rand_string(rng) for _ in range(5)] + ['', ' ', 'a B c', 'a  B', 'aB c\t1', '\xa0']:
             kind, val = GG.run_impl(lambda: g.check_response(canon, stu))
             cs = ref_clean(stu, f)
